@@ -36,6 +36,9 @@ pub struct Ctx {
     pub start: u64,
     pub only: Option<u64>,
     pub max_cases: Option<u64>,
+    /// execute only every `stride`-th of this shard's cases (uniform thinning for slow lanes)
+    pub stride: u64,
+    pub mine: u64,
     /// running index over the whole (unsharded) enumeration
     pub next_idx: u64,
     pub cur_idx: u64,
@@ -76,6 +79,10 @@ impl Ctx {
             if k < self.start || k % self.shard.1 != self.shard.0 {
                 return false;
             }
+            let m = (k / self.shard.1).wrapping_add(self.seed);
+            if self.stride > 1 && m % self.stride != 0 {
+                return false;
+            }
             if let Some(m) = self.max_cases {
                 if self.executed >= m {
                     self.stop = true;
@@ -108,6 +115,16 @@ impl Ctx {
     /// True if the enumeration can stop early (only/--max reached).
     pub fn done(&self) -> bool {
         self.stop || matches!(self.only, Some(o) if self.next_idx > o)
+    }
+
+    /// Inner-loop thinning under Miri: true for one in `n` calls (always true in the other lanes).
+    #[inline]
+    pub fn thin(&mut self, n: u64) -> bool {
+        if self.scale != Scale::Miri {
+            return true;
+        }
+        self.mine = self.mine.wrapping_add(1);
+        (self.mine.wrapping_add(self.seed)) % n == 0
     }
 
     #[inline]
